@@ -54,6 +54,7 @@ AccInit == [bad |-> {},          \* <<phase, op>> : the API answered badly (5xx 
             times |-> <<>>,      \* arrival times (ms) of the requests, only kept when a rate limit is configured
             rateBad |-> FALSE,
             scenReq |-> 0,       \* requests of the current stateful scenario (reset when the thread announces a scenario)
+            hung |-> FALSE,      \* the event stream stopped producing events: the harness' watchdog expired while it waited for the next one
             stepsBad |-> FALSE,  \* a stateful scenario sent more requests than the configured number of steps
             statlost |-> 0,      \* distinct delivered failures that are missing from the CLI statistic at the end of the run
             deaths |-> 0,        \* threads that died with an uncaught exception (each is a problem that must be reported)
@@ -109,6 +110,7 @@ Step ==
        [] x.e = "CTRLC" -> acc' = [acc EXCEPT !.ctrlc = TRUE] /\ UNCHANGED mon
        [] x.e = "FAULT" -> acc' = [acc EXCEPT !.faults = @ \cup {<<x.ph, x.op>>}] /\ UNCHANGED mon
        [] x.e = "CRASH" -> acc' = [acc EXCEPT !.crashed = TRUE] /\ UNCHANGED mon
+       [] x.e = "HANG" -> acc' = [acc EXCEPT !.hung = TRUE] /\ UNCHANGED mon
        [] x.e = "TDEATH" -> acc' = [acc EXCEPT !.faults = @ \cup {<<x.ph, 0>>}, !.deaths = @ + 1] /\ UNCHANGED mon
        [] x.e = "X" -> acc' = [acc EXCEPT !.exit = x.code, !.statlost = x.statlost] /\ UNCHANGED mon
        [] OTHER -> UNCHANGED <<mon, acc>>       \* informational lines (STEP, WEXIT, COUNT)
@@ -130,6 +132,8 @@ ProtocolOK == ~Bad(mon)
 Cli == Hdr.cli
 EndProtocolOK == (AtEnd /\ ~Cli) => EndOK(mon, NPhases, MaxFail, acc.stopped \/ acc.ctrlc)
 NoCrash == ~acc.crashed                       \* neither the stream nor the CLI context raised
+(* the implementation-side face of Engine!Termination / Stateful!Termination: "exactly one finish event last" needs the stream to end *)
+Terminates == ~acc.hung
 
 (* ---------------- C05 ---------------- *)
 Problems == acc.bad \cup acc.faults
@@ -195,7 +199,7 @@ StepCountRespected == ~acc.stepsBad
    arrival times are taken by the API, the limiter works on send times) *)
 RateRespected == ~acc.rateBad
 
-AllOK == /\ ProtocolOK /\ EndProtocolOK /\ NoCrash /\ NoProblemLost /\ CliExitCode /\ DeliveredFailureCounts /\ SchemaErrorsReported /\ UnserializableReported /\ FailuresRecordedWithRequest
+AllOK == /\ ProtocolOK /\ EndProtocolOK /\ NoCrash /\ Terminates /\ NoProblemLost /\ CliExitCode /\ DeliveredFailureCounts /\ SchemaErrorsReported /\ UnserializableReported /\ FailuresRecordedWithRequest
          /\ ZeroMeansClean /\ ExitCodeSet /\ MaxExamplesRespected /\ MaxFailuresRespected /\ LaterPhasesSkipped
          /\ NoScenarioAfterStop /\ AtMostOneSendAfterStop /\ UniqueInputs /\ RateRespected /\ StepCountRespected
 
@@ -203,6 +207,7 @@ ViolatedClauses ==
     (IF ~ProtocolOK THEN {"C11 ProtocolOK: " \o mon.why} ELSE {}) \cup
     (IF ~EndProtocolOK THEN {"C11 EndProtocolOK"} ELSE {}) \cup
     (IF ~NoCrash THEN {"C11 NoCrash"} ELSE {}) \cup
+    (IF ~Terminates THEN {"C11 Terminates"} ELSE {}) \cup
     (IF ~NoProblemLost THEN {"C05 NoProblemLost"} ELSE {}) \cup
     (IF ~CliExitCode THEN {"C05 CliExitCode"} ELSE {}) \cup
     (IF ~DeliveredFailureCounts THEN {"C05 DeliveredFailureCounts"} ELSE {}) \cup
